@@ -384,10 +384,14 @@ class PolygonFilter(object):
         """Save all polygon filters"""
         if len(PolygonFilter.instances) == 0:
             raise PolygonFilterError("There are no polygon filters to save.")
+        # open the file once: one append handle per filter lets the buffered
+        # text of several filters reach the file interleaved
+        if isinstance(polyfile, io.IOBase):
+            polyobj = polyfile
+        else:
+            polyobj = pathlib.Path(polyfile).open("a")
         for p in PolygonFilter.instances:
-            # we return the ret_obj, so we don't need to open and
-            # close the file multiple times.
-            polyobj = p.save(polyfile, ret_fobj=True)
+            p.save(polyobj, ret_fobj=True)
         # close the object after we are done saving all filters
         polyobj.close()
 
